@@ -306,6 +306,108 @@ def run(ctx):
                           % ([s_[0] for s_ in script if s_[0] in ('compress', 'encrypt')], len(sent_ids), seen[:12], sent_ids[:12], errs[:1]),
                           {'script': [s_[0] for s_ in script], 'threshold': thr, 'encrypted': enc_on},
                           key={'kind': 'session', 'script': [s_[0] for s_ in script], 'thr': thr, 'ids': sent_ids})
+    # ---- the play-state Set Compression of protocol <= 47: a session that enters the play state with or without
+    # login compression and is then told (in the play state) to (re)set the threshold; frames after it are in the
+    # new framing and must all be delivered, and what the client writes afterwards must be readable by the server
+    for trial in range(ctx.scale(8, 64)):
+        thr0 = [None, 64, None, 0][trial % 4]
+        thr1 = [0, 1, 64, 300, 5][trial % 5]
+        script = ([('compress', thr0)] if thr0 is not None else []) + [('success',)]
+        sent_ids = []
+        for ph in range(2):
+            for _ in range(rng.randrange(1, 6)):
+                pid = rng.choice([0x7E, 0x7F, 0x6F, 300])
+                body = bytes(rng.randrange(256) for _ in range(rng.choice([0, 1, 7, 63, 64, 65, 400])))
+                script.append(('raw', pid, body))
+                sent_ids.append(pid)
+            if ph == 0:
+                script.append(('play_compress', thr1))
+        cfg = {'version': 47, 'script': script, 'rsa': '1024'}
+        if trial % 3 == 0:
+            import random
+            cfg['stream_rng'] = random.Random(rng.getrandbits(32))
+        seen, errs = [], []
+        back = P_.Packet()
+        back.id, back.definition = 0x7D, [{'payload': TrailingByteArray}]
+        back.payload = bytes(rng.randrange(256) for _ in range(rng.choice([0, 3, 70, 500])))
+
+        def on_generic(p):
+            if type(p) is P_.Packet:
+                seen.append(p.id)
+                if len(seen) == len(sent_ids):
+                    conn.write_packet(back)
+        with simnet.Net(lambda s_: RefServer(s_, cfg)) as net:
+            conn = C.Connection('h', 1, username='u', allowed_versions={47}, handle_exception=lambda e, i: errs.append(repr(e)))
+            conn.register_packet_listener(on_generic, P_.Packet)
+            conn.connect()
+            net.run_threads()
+            srv = cfg['servers'][-1]
+            echoed = [(f[1], f[2]) for f in srv.frames if f[0] == 'play']
+        ctx.case(('session47', trial, thr0, thr1, tuple(sent_ids)),
+                 sample={'op': 'session47', 'login_threshold': thr0, 'play_threshold': thr1, 'frames': len(sent_ids)})
+        ctx.count('session47.play-set-compression')
+        if seen != sent_ids or errs or (0x7D, back.payload) not in echoed or srv.errors:
+            ctx.violation('protocol 47 session, login threshold %r, play-state Set Compression(%d) after %d frames: delivered ids %r, '
+                          'sent %r, errors %r; client packet written afterwards seen by the server: %r (server parse errors %r)'
+                          % (thr0, thr1, script.index(('play_compress', thr1)) - (2 if thr0 is not None else 1), seen[:12],
+                             sent_ids[:12], errs[:1], (0x7D, back.payload) in echoed, srv.errors[:1]),
+                          {'script': [s_[0] for s_ in script], 'login_threshold': thr0, 'play_threshold': thr1},
+                          key={'kind': 'session47', 'thr0': thr0, 'thr1': thr1, 'ids': sent_ids})
+    # ---- a write that fails while the packet is being serialised (nothing has been sent) must leave nothing behind:
+    # the next packet written by the same thread is framed exactly as if the failed one had never been attempted
+    for trial in range(ctx.scale(40, 400)):
+        thr = [None, -1, 0, 64, 256][trial % 5]
+        kind = trial // 5 % 4
+        bad = Packet()
+        bad.id = rng.choice([0x05, 0x17, 300])
+        bad.context = C.ConnectionContext(protocol_version=757)
+        from minecraft.networking.types import VarInt as VI_, String as S_, Short as Sh_
+        if kind == 0:
+            bad.definition = [{'a': VI_}, {'payload': TrailingByteArray}]
+            bad.a, bad.payload = rng.randrange(1000), 'text, not bytes'
+        elif kind == 1:
+            bad.definition = [{'a': S_}, {'b': VI_}]
+            bad.a = 'x' * rng.randrange(0, 40)                     # b never set
+        elif kind == 2:
+            bad.definition = [{'a': VI_}, {'b': Sh_}]
+            bad.a, bad.b = 7, 2 ** 20                              # out of range
+        else:
+            bad.definition = [{'a': S_}, {'b': VI_}]
+            bad.a, bad.b = 'ok', -1                                # VarInt refuses negatives
+        spy = Sock()
+        failed = None
+        try:
+            bad.write(spy) if thr is None else bad.write(spy, thr)
+        except Exception as e:
+            failed = type(e).__name__
+        good_pid = rng.choice(sorted(KNOWN))
+        body = bytes(rng.randrange(256) for _ in range(rng.choice([0, 1, 60, 70, 300])))
+        good = Packet()
+        good.id, good.definition, good.payload = good_pid, [{'payload': TrailingByteArray}], body
+        good.context = bad.context
+        try:
+            good.write(spy) if thr is None else good.write(spy, thr)
+        except Exception as e:
+            failed = 'second write raised ' + type(e).__name__
+        ctx.case(('after-failed-serialise', trial, kind, thr, good_pid, len(body)))
+        ctx.count('after-failed-serialise.%s' % failed)
+        data = b''.join(spy.sends)
+        ok = False
+        try:
+            n, p = rc_.read_varint(data, 0)
+            fr = data[p:p + n]
+            if thr is not None and p + n == len(data):
+                dl, q = rc_.read_varint(fr, 0)
+                fr = zlib.decompress(fr[q:]) if dl else fr[q:]
+            ok = p + n == len(data) and fr == rc_.varint(good_pid) + body
+        except Exception:
+            ok = False
+        if failed is None or not ok:
+            ctx.violation('a write failed in serialisation (%s, nothing sent); the next packet (id %d, %d bytes, threshold %r) written by '
+                          'the same thread went out as %s instead of exactly its own frame'
+                          % (failed, good_pid, len(body), thr, data.hex()[:80]),
+                          {'kind': kind, 'threshold': thr, 'id': good_pid, 'len': len(body)},
+                          key={'kind': 'after-failed-serialise', 'k': kind, 'thr': thr})
     dispatch_tie(ctx)
 
 
